@@ -204,4 +204,1432 @@ theorem Inv.of_frame {fn : Nat → Nat} {s s' : State} (h : Inv fn s) (hF : Fram
 theorem inv_init (fn : Nat → Nat) (mw qs fp : Nat) : Inv fn (State.init mw qs fp) := by
   refine ⟨?_, ?_, ?_, ?_, ?_, ?_, ?_, ?_, ?_, ?_, ?_⟩ <;> simp [State.init]
 
+/-! ### Preservation -/
+
+
+theorem setFut_fut (fs : List FutRec) (wid : Nat) (st : Fut) (i : Nat) (r : FutRec)
+    (hi : fs[i]? = some r) : ∃ r' : FutRec, (setFut fs wid st)[i]? = some r' ∧ r'.arg = r.arg := by
+  simp only [getElem?_setFut]
+  split
+  · exact ⟨{ r with st := st }, by simp [hi], rfl⟩
+  · exact ⟨r, hi, rfl⟩
+
+theorem failAll_fut (fs : List FutRec) (wids : List Nat) (e : Exc) (i : Nat) (r : FutRec)
+    (hi : fs[i]? = some r) : ∃ r' : FutRec, (failAll fs wids e)[i]? = some r' ∧ r'.arg = r.arg := by
+  simp only [getElem?_failAll]
+  split
+  · exact ⟨{ r with st := .exception e }, by simp [hi], rfl⟩
+  · exact ⟨r, hi, rfl⟩
+
+theorem inv_enqueue {fn : Nat → Nat} {s : State} {wid : Nat} {rest : List Nat} {r : FutRec}
+    (h : Inv fn s) (hm : s.mgr = .running) (hids : s.work_ids = wid :: rest)
+    (hwp : wid ∈ s.pending_work_items) (hr0 : s.futures[wid]? = some r) :
+    Inv fn (enqueue s wid rest r) := by
+  have hnd : (wid :: rest).Nodup := hids ▸ h.ids_nodup
+  have hwr : wid ∉ rest := (List.nodup_cons.mp hnd).1
+  apply h.of_frame
+  · refine ⟨?_, ?_, ?_⟩
+    · intro i r' hi; exact setFut_fut _ _ _ i r' hi
+    · intro w hw; exact Or.inl hw
+    · intro w hw _; simp [enqueue, hw]
+  · intro it hit
+    simp only [enqueue, List.mem_append, List.mem_singleton] at hit
+    rcases hit with hit | rfl
+    · exact Or.inl hit
+    · right
+      refine ⟨⟨{ r with st := .running }, ?_, rfl⟩, ?_⟩
+      · simp [enqueue, getElem?_setFut, hr0]
+      · intro _; simp [enqueue]
+  · intro w hw it hc; exact Or.inl ⟨w, hw, hc⟩
+  · intro m hm; exact Or.inl hm
+  · intro w hw; simpa [enqueue] using h.pend_lt w hw
+  · intro i r' hi hu
+    simp only [enqueue, getElem?_setFut] at hi
+    split at hi
+    · rename_i heq; subst heq; exact hwp
+    · exact h.unres_pend i r' hi hu
+  · intro _ w hw
+    simp only [enqueue] at hw
+    have := h.ids_pend (Or.inl hm) w (by rw [hids]; simp [hw])
+    refine ⟨this.1, ?_⟩
+    simp only [enqueue, List.mem_append, List.mem_singleton, not_or]
+    exact ⟨this.2, fun e => hwr (e ▸ hw)⟩
+  · intro i r' v hi hv
+    simp only [enqueue, getElem?_setFut] at hi
+    split at hi
+    · rename_i heq; subst heq; rw [hr0] at hi; simp at hi; subst hi; simp at hv
+    · exact h.res_ok i r' v hi hv
+  · exact h.not_crashed
+  · intro w hw
+    simp only [enqueue] at hw
+    simpa [enqueue] using h.ids_lt w (by rw [hids]; simp [hw])
+  · simpa [enqueue] using (List.nodup_cons.mp hnd).2
+  · intro w hw
+    simp only [enqueue, List.mem_append, List.mem_singleton] at hw
+    rcases hw with hw | rfl
+    · simpa [enqueue] using h.run_lt w hw
+    · simpa [enqueue] using h.pend_lt _ hwp
+
+/-- What `add_call_item_to_queue` never touches. -/
+theorem addCallItemsLoop_same (ids : List Nat) (s : State) :
+    (addCallItemsLoop ids s).processes = s.processes ∧
+    (addCallItemsLoop ids s).result_pipe = s.result_pipe ∧
+    (addCallItemsLoop ids s).partialMsg = s.partialMsg ∧
+    (addCallItemsLoop ids s).wakeups = s.wakeups ∧
+    (addCallItemsLoop ids s).flags = s.flags ∧
+    (addCallItemsLoop ids s).pending_work_items = s.pending_work_items ∧
+    (addCallItemsLoop ids s).max_workers = s.max_workers ∧
+    (addCallItemsLoop ids s).next_pid = s.next_pid := by
+  induction ids generalizing s with
+  | nil => simp [addCallItemsLoop]
+  | cons wid rest ih =>
+    unfold addCallItemsLoop
+    split
+    · simp
+    · split
+      · split
+        · rename_i r _
+          simpa [enqueue] using ih (enqueue s wid rest r)
+        · simp [crash]
+      · simp [crash]
+
+theorem inv_addCallItemsLoop (fn : Nat → Nat) (ids : List Nat) (s : State)
+    (hids : s.work_ids = ids) (h : Inv fn s) (hr : s.mgr = .running) :
+    Inv fn (addCallItemsLoop ids s) ∧ (addCallItemsLoop ids s).mgr = .running := by
+  induction ids generalizing s with
+  | nil => simp [addCallItemsLoop, h, hr]
+  | cons wid rest ih =>
+    have hwp : wid ∈ s.pending_work_items := (h.ids_pend (Or.inl hr) wid (by rw [hids]; simp)).1
+    have hlt := h.pend_lt wid hwp
+    obtain ⟨r, hr0⟩ : ∃ r, s.futures[wid]? = some r := ⟨s.futures[wid], by simp [hlt]⟩
+    unfold addCallItemsLoop
+    split
+    · exact ⟨h, hr⟩
+    · simp only [hr0]
+      exact ih _ rfl (inv_enqueue h hr hids hwp hr0) hr
+
+theorem inv_addCallItems {fn : Nat → Nat} {s : State} (h : Inv fn s) (hr : s.mgr = .running) :
+    Inv fn (addCallItems s) ∧ (addCallItems s).mgr = .running :=
+  inv_addCallItemsLoop fn s.work_ids s rfl h hr
+
+/-- Through `add_call_item_to_queue` a future keeps its argument and its state, or is set running. -/
+theorem addCallItemsLoop_futures (ids : List Nat) (s : State) (i : Nat) (r : FutRec)
+    (hi : s.futures[i]? = some r) :
+    ∃ r' : FutRec, (addCallItemsLoop ids s).futures[i]? = some r' ∧ r'.arg = r.arg ∧
+      (r'.st = r.st ∨ r'.st = .running) := by
+  induction ids generalizing s r with
+  | nil => exact ⟨r, by simp [addCallItemsLoop, hi], rfl, Or.inl rfl⟩
+  | cons wid rest ih =>
+    unfold addCallItemsLoop
+    split
+    · exact ⟨r, hi, rfl, Or.inl rfl⟩
+    · split
+      · split
+        · rename_i r0 hr0
+          by_cases hiw : i = wid
+          · subst hiw
+            obtain ⟨r', h1, h2, h3⟩ := ih (enqueue s i rest r0) { r with st := .running }
+              (by simp [enqueue, getElem?_setFut, hi])
+            exact ⟨r', h1, h2, Or.inr (by rcases h3 with h3 | h3 <;> simpa using h3)⟩
+          · exact ih (enqueue s wid rest r0) r (by simp [enqueue, getElem?_setFut, hiw, hi])
+        · exact ⟨r, by simp [crash, hi], rfl, Or.inl rfl⟩
+      · exact ⟨r, by simp [crash, hi], rfl, Or.inl rfl⟩
+
+
+/-- Changing only containers `Inv` does not look at, or shrinking the pipe / call queue / processes. -/
+theorem Inv.of_same {fn : Nat → Nat} {s s' : State} (h : Inv fn s)
+    (e1 : s'.futures = s.futures) (e2 : s'.pending_work_items = s.pending_work_items)
+    (e3 : s'.running_work_items = s.running_work_items) (e4 : s'.work_ids = s.work_ids)
+    (hcq : ∀ it ∈ s'.call_queue, it ∈ s.call_queue ∨ ItemOk s' it)
+    (hcur : ∀ w ∈ s'.processes, ∀ it, w.current = some it →
+      (∃ w0 ∈ s.processes, w0.current = some it) ∨ ItemOk s' it)
+    (hpipe : ∀ m ∈ s'.result_pipe, m ∈ s.result_pipe ∨ MsgOk fn s' m)
+    (hm : s'.mgr = s.mgr ∨ s'.mgr = .exited ∨ (s.mgr = .notStarted ∧ s'.mgr = .running)) : Inv fn s' := by
+  apply h.of_frame (Frame.refl' e1 e2 e3) hcq hcur hpipe
+  · rw [e1, e2]; exact h.pend_lt
+  · rw [e1, e2]; exact h.unres_pend
+  · intro hm'
+    rw [e2, e3, e4]
+    apply h.ids_pend
+    rcases hm with hm | hm | ⟨hm, _⟩
+    · rw [← hm]; exact hm'
+    · rw [hm] at hm'; rcases hm' with h' | h' <;> cases h'
+    · exact Or.inr hm
+  · rw [e1]; exact h.res_ok
+  · rcases hm with hm | hm | ⟨_, hm⟩
+    · rw [hm]; exact h.not_crashed
+    · rw [hm]; intro h'; cases h'
+    · rw [hm]; intro h'; cases h'
+  · rw [e1, e4]; exact h.ids_lt
+  · rw [e4]; exact h.ids_nodup
+  · rw [e1, e3]; exact h.run_lt
+
+theorem inv_received {fn : Nat → Nat} {s : State} (h : Inv fn s) (rest : List Msg)
+    (hsub : ∀ m ∈ rest, m ∈ s.result_pipe) : Inv fn (received s rest) :=
+  h.of_same rfl rfl rfl rfl (fun _ hit => Or.inl hit) (fun w hw _ hc => Or.inl ⟨w, hw, hc⟩)
+    (fun m hm => Or.inl (hsub m hm)) (Or.inl rfl)
+
+theorem inv_complete {fn : Nat → Nat} {s : State} {wid : Nat} {st : Fut} (h : Inv fn s)
+    (hrun : wid ∈ s.running_work_items) (hres : st.unresolved = false)
+    (hval : ∀ v r, st = .result v → s.futures[wid]? = some r → v = fn r.arg) :
+    Inv fn (complete s wid st) := by
+  apply h.of_frame
+  · refine ⟨?_, ?_, ?_⟩
+    · intro i r' hi; exact setFut_fut _ _ _ i r' hi
+    · intro w hw; left; simp only [complete, List.mem_filter] at hw; exact hw.1
+    · intro w hw hp
+      simp only [complete, List.mem_filter, bne_iff_ne] at hp
+      exact (List.mem_erase_of_ne hp.2).mpr hw
+  · intro it hit; exact Or.inl hit
+  · intro w hw it hc; exact Or.inl ⟨w, hw, hc⟩
+  · intro m hm; exact Or.inl hm
+  · intro w hw
+    simp only [complete, List.mem_filter] at hw
+    simpa [complete] using h.pend_lt w hw.1
+  · intro i r' hi hu
+    simp only [complete, getElem?_setFut] at hi
+    split at hi
+    · rename_i heq; subst heq
+      cases hx : s.futures[i]? with
+      | none => rw [hx] at hi; simp at hi
+      | some r0 => rw [hx] at hi; simp at hi; subst hi; simp [hres] at hu
+    · rename_i hne
+      simp only [complete, List.mem_filter, bne_iff_ne]
+      exact ⟨h.unres_pend i r' hi hu, hne⟩
+  · intro hm w hw
+    have := h.ids_pend hm w hw
+    have hne : w ≠ wid := fun e => this.2 (e ▸ hrun)
+    simp only [complete, List.mem_filter, bne_iff_ne]
+    exact ⟨⟨this.1, hne⟩, fun hx => this.2 (List.mem_of_mem_erase hx)⟩
+  · intro i r' v hi hv
+    simp only [complete, getElem?_setFut] at hi
+    split at hi
+    · rename_i heq; subst heq
+      cases hx : s.futures[i]? with
+      | none => rw [hx] at hi; simp at hi
+      | some r0 =>
+        rw [hx] at hi; simp at hi; subst hi
+        simp at hv
+        exact hval v r0 hv hx
+    · exact h.res_ok i r' v hi hv
+  · exact h.not_crashed
+  · intro w hw; simpa [complete] using h.ids_lt w hw
+  · exact h.ids_nodup
+  · intro w hw
+    simp only [complete] at hw
+    simpa [complete] using h.run_lt w (List.mem_of_mem_erase hw)
+
+
+theorem inv_reapWorker {fn : Nat → Nat} {s : State} (h : Inv fn s) (p : Nat) : Inv fn (reapWorker s p) := by
+  have hfilt : Inv fn { s with processes := s.processes.filter (fun w => w.pid != p) } :=
+    h.of_same rfl rfl rfl rfl (fun _ hit => Or.inl hit)
+      (fun w hw _ hc => Or.inl ⟨w, (List.mem_filter.mp hw).1, hc⟩) (fun m hm => Or.inl hm) (Or.inl rfl)
+  unfold reapWorker
+  simp only
+  split
+  · unfold adjustProcessCount
+    rw [spawn_eq]
+    refine hfilt.of_same rfl rfl rfl rfl (fun _ hit => Or.inl hit) ?_ (fun m hm => Or.inl hm) (Or.inl rfl)
+    intro w hw it hc
+    simp only [List.mem_append] at hw
+    rcases hw with hw | hw
+    · exact Or.inl ⟨w, hw, hc⟩
+    · have := (newWorkers_fresh _ _ w hw).2
+      rw [this] at hc; cases hc
+  · exact hfilt
+
+theorem inv_flags {fn : Nat → Nat} {s : State} (h : Inv fn s) (f : Flags) : Inv fn { s with flags := f } :=
+  h.of_same rfl rfl rfl rfl (fun _ hit => Or.inl hit) (fun w hw _ hc => Or.inl ⟨w, hw, hc⟩)
+    (fun _ hm => Or.inl hm) (Or.inl rfl)
+
+/-- `pending_work_items` failed and cleared, workers killed, thread returned. -/
+theorem inv_fail_join {fn : Nat → Nat} {s : State} (h : Inv fn s) (e : Exc) :
+    Inv fn (joinExecutorInternals (killWorkers (failPending s e))) := by
+  apply h.of_frame
+  · refine ⟨?_, ?_, ?_⟩
+    · intro i r' hi; exact failAll_fut _ _ _ i r' hi
+    · intro w hw; simp [joinExecutorInternals, killWorkers, failPending] at hw
+    · intro w _ hw; simp [joinExecutorInternals, killWorkers, failPending] at hw
+  · intro it hit; exact Or.inl hit
+  · intro w hw; simp [joinExecutorInternals, killWorkers, failPending] at hw
+  · intro m hm; exact Or.inl hm
+  · intro w hw; simp [joinExecutorInternals, killWorkers, failPending] at hw
+  · intro i r' hi hu
+    simp only [joinExecutorInternals, killWorkers, failPending, getElem?_failAll] at hi
+    split at hi
+    · cases hx : s.futures[i]? with
+      | none => rw [hx] at hi; simp at hi
+      | some r0 => rw [hx] at hi; simp at hi; subst hi; simp [Fut.unresolved] at hu
+    · rename_i hni; exact absurd (h.unres_pend i r' hi hu) hni
+  · intro hm; simp [joinExecutorInternals] at hm
+  · intro i r' v hi hv
+    simp only [joinExecutorInternals, killWorkers, failPending, getElem?_failAll] at hi
+    split at hi
+    · cases hx : s.futures[i]? with
+      | none => rw [hx] at hi; simp at hi
+      | some r0 => rw [hx] at hi; simp at hi; subst hi; simp at hv
+    · exact h.res_ok i r' v hi hv
+  · simp [joinExecutorInternals]
+  · intro w hw; simpa [joinExecutorInternals, killWorkers, failPending] using h.ids_lt w hw
+  · exact h.ids_nodup
+  · intro w hw; simpa [joinExecutorInternals, killWorkers, failPending] using h.run_lt w hw
+
+theorem inv_terminateBroken {fn : Nat → Nat} {s : State} (h : Inv fn s) (e : Exc) :
+    Inv fn (terminateBroken s e) := by
+  unfold terminateBroken flagAsBroken
+  exact inv_fail_join (inv_flags h _) e
+
+theorem inv_join {fn : Nat → Nat} {s : State} (h : Inv fn s) : Inv fn (joinExecutorInternals s) :=
+  h.of_same rfl rfl rfl rfl (fun _ hit => Or.inl hit) (fun w hw _ _ => by simp [joinExecutorInternals] at hw)
+    (fun _ hm => Or.inl hm) (Or.inr (Or.inl rfl))
+
+theorem inv_processResultItem {fn : Nat → Nat} {s : State} (h : Inv fn s) (m : Msg) (hm : MsgOk fn s m) :
+    Inv fn (processResultItem s m) := by
+  cases m with
+  | pid p => exact inv_reapWorker h p
+  | result wid v =>
+    simp only [processResultItem]
+    split
+    · rename_i hp
+      have hr := hm.2 hp
+      rw [if_pos hr]
+      apply inv_complete h hr rfl
+      intro v' r hv hr'
+      obtain ⟨⟨r0, hr0, hv0⟩, _⟩ := hm
+      rw [hr0] at hr'; cases hr'; cases hv; exact hv0
+    · exact h
+  | taskExc wid =>
+    simp only [processResultItem]
+    split
+    · rename_i hp
+      have hr := hm.2 hp
+      rw [if_pos hr]
+      apply inv_complete h hr rfl
+      intro v' r hv; cases hv
+    · exact h
+  | remoteTb => exact h
+  | unpicklable => exact h
+
+theorem inv_finishIteration {fn : Nat → Nat} {s : State} (h : Inv fn s) : Inv fn (finishIteration s).1 := by
+  unfold finishIteration
+  split
+  · exact h
+  · split
+    · unfold flagExecutorShuttingDown
+      simp only
+      split
+      · -- kill_workers: everything pending fails, the thread returns
+        have : (killWorkers (failPending { s with flags := { s.flags with shutdown := true } } .shutdownExecutor)).pending_work_items = [] := rfl
+        simp only [this, List.isEmpty_nil, if_true]
+        exact inv_fail_join (inv_flags h _) _
+      · split
+        · exact inv_join (inv_flags h _)
+        · exact inv_flags h _
+    · exact h
+
+
+theorem inv_managerStep {fn : Nat → Nat} {s : State} (h : Inv fn s) : Inv fn (managerStep s).1 := by
+  unfold managerStep
+  split
+  · exact h
+  · rename_i hr
+    have hr : s.mgr = .running := by simpa using hr
+    obtain ⟨h1, hr1⟩ := inv_addCallItems h hr
+    have hnc : ¬ (addCallItems s).mgr = .crashed := by rw [hr1]; intro e; cases e
+    simp only [hnc, if_false]
+    split
+    · rename_i _ m rest hpipe
+      have hmem : ∀ x ∈ rest, x ∈ (addCallItems s).result_pipe := by
+        intro x hx; rw [hpipe]; exact List.mem_cons_of_mem _ hx
+      have h2 := inv_received h1 rest hmem
+      have hmok : MsgOk fn (received (addCallItems s) rest) m :=
+        (Frame.refl' rfl rfl rfl : Frame (addCallItems s) (received (addCallItems s) rest)).msg
+          (h1.pipe_ok m (by rw [hpipe]; simp))
+      split
+      · exact inv_terminateBroken h2 _
+      · exact inv_terminateBroken h2 _
+      · exact inv_finishIteration (inv_processResultItem h2 _ hmok)
+    · split
+      · exact h1
+      · exact h1
+    · split
+      · exact inv_finishIteration (inv_received h1 [] (by simp))
+      · split
+        · exact h1
+        · exact inv_terminateBroken h1 _
+
+
+theorem inv_adjust {fn : Nat → Nat} {s : State} (h : Inv fn s) : Inv fn (adjustProcessCount s) := by
+  unfold adjustProcessCount
+  rw [spawn_eq]
+  refine h.of_same rfl rfl rfl rfl (fun _ hit => Or.inl hit) ?_ (fun _ hm => Or.inl hm) (Or.inl rfl)
+  intro w hw it hc
+  simp only [List.mem_append] at hw
+  rcases hw with hw | hw
+  · exact Or.inl ⟨w, hw, hc⟩
+  · have := (newWorkers_fresh _ _ w hw).2
+    rw [this] at hc; cases hc
+
+theorem inv_register {fn : Nat → Nat} {s : State} (h : Inv fn s) (arg : Nat) : Inv fn (register s arg) := by
+  apply h.of_frame
+  · refine ⟨?_, ?_, ?_⟩
+    · intro i r hi
+      have hlt : i < s.futures.length := (List.getElem?_eq_some_iff.mp hi).1
+      exact ⟨r, by simp [register, List.getElem?_append_left hlt, hi], rfl⟩
+    · intro w hw
+      simp only [register, List.mem_append, List.mem_singleton] at hw
+      rcases hw with hw | rfl
+      · exact Or.inl hw
+      · right; simp
+    · intro w hw _; exact hw
+  · intro it hit; exact Or.inl hit
+  · intro w hw it hc; exact Or.inl ⟨w, hw, hc⟩
+  · intro m hm; exact Or.inl hm
+  · intro w hw
+    simp only [register, List.mem_append, List.mem_singleton] at hw
+    simp only [register, List.length_append, List.length_singleton]
+    rcases hw with hw | rfl
+    · have := h.pend_lt w hw; omega
+    · omega
+  · intro i r hi hu
+    simp only [register, List.mem_append, List.mem_singleton]
+    by_cases hlt : i < s.futures.length
+    · left
+      simp only [register, List.getElem?_append_left hlt] at hi
+      exact h.unres_pend i r hi hu
+    · right
+      have := (List.getElem?_eq_some_iff.mp hi).1
+      simp only [register, List.length_append, List.length_singleton] at this
+      omega
+  · intro hm w hw
+    simp only [register, List.mem_append, List.mem_singleton] at hw ⊢
+    rcases hw with hw | rfl
+    · have := h.ids_pend hm w hw
+      exact ⟨Or.inl this.1, this.2⟩
+    · refine ⟨Or.inr rfl, fun hx => ?_⟩
+      have := h.run_lt _ hx; omega
+  · intro i r v hi hv
+    by_cases hlt : i < s.futures.length
+    · simp only [register, List.getElem?_append_left hlt] at hi
+      exact h.res_ok i r v hi hv
+    · have hl := (List.getElem?_eq_some_iff.mp hi).1
+      simp only [register, List.length_append, List.length_singleton] at hl
+      have : i = s.futures.length := by omega
+      subst this
+      simp [register] at hi
+      subst hi; simp at hv
+  · exact h.not_crashed
+  · intro w hw
+    simp only [register, List.mem_append, List.mem_singleton] at hw
+    simp only [register, List.length_append, List.length_singleton]
+    rcases hw with hw | rfl
+    · have := h.ids_lt w hw; omega
+    · omega
+  · simp only [register]
+    apply List.nodup_append.mpr
+    refine ⟨h.ids_nodup, by simp, ?_⟩
+    intro a ha b hb
+    simp at hb; subst hb
+    have := h.ids_lt a ha; omega
+  · intro w hw
+    simp only [register, List.length_append, List.length_singleton]
+    have := h.run_lt w hw; omega
+
+theorem inv_startManager {fn : Nat → Nat} {s : State} (h : Inv fn s) : Inv fn (startManager s) := by
+  refine h.of_same rfl rfl rfl rfl (fun _ hit => Or.inl hit) (fun w hw _ hc => Or.inl ⟨w, hw, hc⟩)
+    (fun _ hm => Or.inl hm) ?_
+  simp only [startManager]
+  by_cases e : s.mgr = .notStarted
+  · right; right; exact ⟨e, by simp [e]⟩
+  · left; simp [e]
+
+theorem inv_submit {fn : Nat → Nat} {s : State} (h : Inv fn s) (arg : Nat) : Inv fn (submit s arg).1 := by
+  unfold submit
+  split
+  · exact h
+  · split
+    · exact h
+    · simp only [ensureRunning]
+      apply inv_startManager
+      split
+      · exact inv_adjust (inv_register h arg)
+      · exact inv_register h arg
+
+theorem inv_shutdown {fn : Nat → Nat} {s : State} (h : Inv fn s) (kw : Bool) : Inv fn (shutdown s kw) :=
+  h.of_same rfl rfl rfl rfl (fun _ hit => Or.inl hit) (fun w hw _ hc => Or.inl ⟨w, hw, hc⟩)
+    (fun _ hm => Or.inl hm) (Or.inl rfl)
+
+theorem mem_updWorker {ps : List Worker} {pid : Nat} {f : Worker → Worker} {w' : Worker}
+    (h : w' ∈ updWorker ps pid f) : ∃ w ∈ ps, w' = if w.pid == pid then f w else w := by
+  simp only [updWorker, List.mem_map] at h
+  obtain ⟨w, hw, e⟩ := h
+  exact ⟨w, hw, e.symm⟩
+
+theorem getWorker_mem {ps : List Worker} {pid : Nat} {w : Worker} (h : getWorker ps pid = some w) :
+    w ∈ ps ∧ w.pid = pid := by
+  unfold getWorker at h
+  exact ⟨List.mem_of_find?_eq_some h, by simpa using List.find?_some h⟩
+
+/-- Worker-side events: only `processes`, `call_queue` (shrinks), `result_pipe` (one message appended) and
+`partialMsg` change. -/
+theorem inv_worker_event {fn : Nat → Nat} {s s' : State} (h : Inv fn s)
+    (e1 : s'.futures = s.futures) (e2 : s'.pending_work_items = s.pending_work_items)
+    (e3 : s'.running_work_items = s.running_work_items) (e4 : s'.work_ids = s.work_ids)
+    (e5 : s'.mgr = s.mgr)
+    (hcq : ∀ it ∈ s'.call_queue, it ∈ s.call_queue)
+    (hcur : ∀ w ∈ s'.processes, ∀ it, w.current = some it →
+      (∃ w0 ∈ s.processes, w0.current = some it) ∨ it ∈ s.call_queue)
+    (hpipe : ∀ m ∈ s'.result_pipe, m ∈ s.result_pipe ∨ MsgOk fn s m) : Inv fn s' := by
+  have hF : Frame s s' := Frame.refl' e1 e2 e3
+  refine h.of_same e1 e2 e3 e4 (fun it hit => Or.inl (hcq it hit)) ?_ ?_ (Or.inl e5)
+  · intro w hw it hc
+    rcases hcur w hw it hc with h' | h'
+    · exact Or.inl h'
+    · exact Or.inr (hF.item (h.cq_ok it h'))
+  · intro m hm
+    rcases hpipe m hm with h' | h'
+    · exact Or.inl h'
+    · exact Or.inr (hF.msg h')
+
+
+theorem updWorker_cur {ps : List Worker} {pid : Nat} {f : Worker → Worker} {w' : Worker} {it : CallItem}
+    (hw : w' ∈ updWorker ps pid f) (hc : w'.current = some it)
+    (hf : ∀ w, (f w).current = some it → w.current = some it ∨ False) :
+    ∃ w0 ∈ ps, w0.current = some it := by
+  obtain ⟨w, hwm, e⟩ := mem_updWorker hw
+  subst e
+  split at hc
+  · rcases hf w hc with h | h
+    · exact ⟨w, hwm, h⟩
+    · exact h.elim
+  · exact ⟨w, hwm, hc⟩
+
+theorem inv_step {fn : Nat → Nat} {s : State} (h : Inv fn s) (e : Event) : Inv fn (step fn s e) := by
+  cases e with
+  | submit arg => exact inv_submit h arg
+  | shutdown kw => exact inv_shutdown h kw
+  | mgr => exact inv_managerStep h
+  | take pid =>
+    simp only [step]
+    split
+    · rename_i w item rest hg hq
+      split
+      · refine inv_worker_event h rfl rfl rfl rfl rfl ?_ ?_ (fun m hm => Or.inl hm)
+        · intro it hit; rw [hq]; exact List.mem_cons_of_mem _ hit
+        · intro w' hw' it hc
+          obtain ⟨w0, hw0, e⟩ := mem_updWorker hw'
+          subst e
+          split at hc
+          · simp at hc; subst hc; right; rw [hq]; simp
+          · exact Or.inl ⟨w0, hw0, hc⟩
+      · exact h
+    · exact h
+  | unpickleFail pid =>
+    simp only [step]
+    split
+    · rename_i w item rest hg hq
+      split
+      · refine inv_worker_event h rfl rfl rfl rfl rfl ?_ ?_ ?_
+        · intro it hit; rw [hq]; exact List.mem_cons_of_mem _ hit
+        · intro w' hw' it hc
+          exact Or.inl (updWorker_cur hw' hc (fun w hx => Or.inl hx))
+        · intro m hm
+          simp only [List.mem_append, List.mem_singleton] at hm
+          rcases hm with hm | rfl
+          · exact Or.inl hm
+          · right; trivial
+      · exact h
+    · exact h
+  | sendResult pid =>
+    simp only [step]
+    split
+    · rename_i w hg
+      split
+      · rename_i item hcur
+        split
+        · refine inv_worker_event h rfl rfl rfl rfl rfl (fun _ hit => hit) ?_ ?_
+          · intro w' hw' it hc
+            exact Or.inl (updWorker_cur hw' hc (fun w hx => by simp at hx))
+          · intro m hm
+            simp only [List.mem_append, List.mem_singleton] at hm
+            rcases hm with hm | rfl
+            · exact Or.inl hm
+            · right
+              obtain ⟨⟨r, hr, ha⟩, hp⟩ := h.cur_ok w (getWorker_mem hg).1 item hcur
+              exact ⟨⟨r, hr, by rw [ha]⟩, hp⟩
+        · exact h
+      · exact h
+    · exact h
+  | sendTaskExc pid =>
+    simp only [step]
+    split
+    · rename_i w hg
+      split
+      · rename_i item hcur
+        split
+        · refine inv_worker_event h rfl rfl rfl rfl rfl (fun _ hit => hit) ?_ ?_
+          · intro w' hw' it hc
+            exact Or.inl (updWorker_cur hw' hc (fun w hx => by simp at hx))
+          · intro m hm
+            simp only [List.mem_append, List.mem_singleton] at hm
+            rcases hm with hm | rfl
+            · exact Or.inl hm
+            · right
+              obtain ⟨⟨r, hr, _⟩, hp⟩ := h.cur_ok w (getWorker_mem hg).1 item hcur
+              exact ⟨⟨r, hr⟩, hp⟩
+        · exact h
+      · exact h
+    · exact h
+  | beginSend pid =>
+    simp only [step]
+    split
+    · split
+      · refine inv_worker_event h rfl rfl rfl rfl rfl (fun _ hit => hit) ?_ (fun m hm => Or.inl hm)
+        intro w' hw' it hc
+        exact Or.inl (updWorker_cur hw' hc (fun w hx => Or.inl hx))
+      · exact h
+    · exact h
+  | endSend pid =>
+    simp only [step]
+    split
+    · rename_i w hg
+      split
+      · rename_i item hcur
+        split
+        · refine inv_worker_event h rfl rfl rfl rfl rfl (fun _ hit => hit) ?_ ?_
+          · intro w' hw' it hc
+            exact Or.inl (updWorker_cur hw' hc (fun w hx => by simp at hx))
+          · intro m hm
+            simp only [List.mem_append, List.mem_singleton] at hm
+            rcases hm with hm | rfl
+            · exact Or.inl hm
+            · right
+              obtain ⟨⟨r, hr, ha⟩, hp⟩ := h.cur_ok w (getWorker_mem hg).1 item hcur
+              exact ⟨⟨r, hr, by rw [ha]⟩, hp⟩
+        · exact h
+      · exact h
+    · exact h
+  | announceExit pid =>
+    simp only [step]
+    split
+    · split
+      · refine inv_worker_event h rfl rfl rfl rfl rfl (fun _ hit => hit) ?_ ?_
+        · intro w' hw' it hc
+          exact Or.inl (updWorker_cur hw' hc (fun w hx => Or.inl hx))
+        · intro m hm
+          simp only [List.mem_append, List.mem_singleton] at hm
+          rcases hm with hm | rfl
+          · exact Or.inl hm
+          · right; trivial
+      · exact h
+    · exact h
+  | kill pid =>
+    simp only [step]
+    refine inv_worker_event h rfl rfl rfl rfl rfl (fun _ hit => hit) ?_ (fun m hm => Or.inl hm)
+    intro w' hw' it hc
+    exact Or.inl (updWorker_cur hw' hc (fun w hx => Or.inl hx))
+
+theorem inv_run {fn : Nat → Nat} {s : State} (h : Inv fn s) (evs : List Event) : Inv fn (run fn s evs) := by
+  induction evs generalizing s with
+  | nil => exact h
+  | cons e es ih => exact ih (inv_step h e)
+
+
+/-! ### A dead worker and the manager's loop -/
+
+
+theorem addCallItems_same (s : State) :
+    (addCallItems s).processes = s.processes ∧
+    (addCallItems s).result_pipe = s.result_pipe ∧
+    (addCallItems s).partialMsg = s.partialMsg ∧
+    (addCallItems s).wakeups = s.wakeups ∧
+    (addCallItems s).flags = s.flags ∧
+    (addCallItems s).pending_work_items = s.pending_work_items ∧
+    (addCallItems s).max_workers = s.max_workers ∧
+    (addCallItems s).next_pid = s.next_pid := addCallItemsLoop_same _ s
+
+theorem finishIteration_not_blocked (s : State) :
+    (finishIteration s).2 = .crashed ∨ (finishIteration s).2 = .exited ∨ (finishIteration s).2 = .progressed := by
+  unfold finishIteration
+  split
+  · simp
+  · split
+    · simp only []
+      split <;> simp
+    · simp
+
+theorem finishIteration_ne_blockedInWait (s : State) : (finishIteration s).2 ≠ .blockedInWait := by
+  rcases finishIteration_not_blocked s with h | h | h <;> rw [h] <;> simp
+
+/-- With a dead process in `processes` the manager is never left sleeping in `wait`. -/
+theorem managerStep_not_blockedInWait (s : State) (p : Nat) (hd : DeadIn s p) :
+    (managerStep s).2 ≠ .blockedInWait := by
+  unfold managerStep
+  split
+  · simp
+  · simp only
+    split
+    · simp
+    · split
+      · split
+        · simp
+        · simp
+        · exact finishIteration_ne_blockedInWait _
+      · split <;> simp
+      · split
+        · exact finishIteration_ne_blockedInWait _
+        · split
+          · rename_i hempty
+            exfalso
+            have : p ∈ deadPids (addCallItems s).processes := by
+              rw [(addCallItems_same s).1]; exact mem_deadPids.mpr hd
+            simp at hempty
+            rw [hempty] at this; cases this
+          · simp
+
+
+/-- No event other than the manager's own iteration takes a dead process out of the wait set. -/
+theorem deadIn_step (fn : Nat → Nat) (s : State) (p : Nat) (e : Event) (hd : DeadIn s p) (hne : e ≠ .mgr) :
+    DeadIn (step fn s e) p := by
+  have hupd : ∀ (pid : Nat) (f : Worker → Worker),
+      (∀ w, (f w).pid = w.pid ∧ (w.alive = false → (f w).alive = false)) →
+      ∃ w ∈ updWorker s.processes pid f, w.pid = p ∧ w.alive = false :=
+    fun pid f hf => updWorker_dead s.processes pid f hf p hd
+  cases e with
+  | mgr => exact absurd rfl hne
+  | submit arg =>
+    simp only [step, submit]
+    split
+    · exact hd
+    · split
+      · exact hd
+      · simp only [ensureRunning, startManager]
+        split
+        · simp only [adjustProcessCount, spawn_eq, register]
+          obtain ⟨w, hw, h1, h2⟩ := hd
+          exact ⟨w, List.mem_append_left _ hw, h1, h2⟩
+        · exact hd
+  | shutdown kw => exact hd
+  | take pid =>
+    simp only [step]
+    split
+    · split
+      · exact hupd pid _ (fun w => ⟨rfl, fun h => h⟩)
+      · exact hd
+    · exact hd
+  | unpickleFail pid =>
+    simp only [step]
+    split
+    · split
+      · exact hupd pid _ (fun w => ⟨rfl, fun _ => rfl⟩)
+      · exact hd
+    · exact hd
+  | sendResult pid =>
+    simp only [step]
+    split
+    · split
+      · split
+        · exact hupd pid _ (fun w => ⟨rfl, fun h => h⟩)
+        · exact hd
+      · exact hd
+    · exact hd
+  | sendTaskExc pid =>
+    simp only [step]
+    split
+    · split
+      · split
+        · exact hupd pid _ (fun w => ⟨rfl, fun h => h⟩)
+        · exact hd
+      · exact hd
+    · exact hd
+  | beginSend pid =>
+    simp only [step]
+    split
+    · split
+      · exact hupd pid _ (fun w => ⟨rfl, fun h => h⟩)
+      · exact hd
+    · exact hd
+  | endSend pid =>
+    simp only [step]
+    split
+    · split
+      · split
+        · exact hupd pid _ (fun w => ⟨rfl, fun h => h⟩)
+        · exact hd
+      · exact hd
+    · exact hd
+  | announceExit pid =>
+    simp only [step]
+    split
+    · split
+      · exact hupd pid _ (fun w => ⟨rfl, fun h => h⟩)
+      · exact hd
+    · exact hd
+  | kill pid =>
+    simp only [step]
+    exact hupd pid _ (fun w => ⟨rfl, fun _ => rfl⟩)
+
+/-- "No worker dies between the first and the last byte of its result message": a partial message in the pipe has
+a live writer. -/
+def NoTornMessage (s : State) : Prop := ∀ w, s.partialMsg = some w → writerAlive s w = true
+
+theorem noTorn_of_none {s : State} (h : s.partialMsg = none) : NoTornMessage s := by
+  intro w hw; rw [h] at hw; cases hw
+
+/-- Every future is resolved (result or exception): none left pending or running. -/
+def Resolved (s : State) : Prop :=
+  ∀ (wid : Nat) (r : FutRec), s.futures[wid]? = some r → r.st.unresolved = false
+
+theorem resolved_of_no_pending {fn : Nat → Nat} {s : State} (h : Inv fn s)
+    (hp : s.pending_work_items = []) : Resolved s := by
+  intro wid r hr
+  cases hu : r.st.unresolved with
+  | false => rfl
+  | true => have := h.unres_pend wid r hr hu; rw [hp] at this; cases this
+
+theorem terminateBroken_resolved {fn : Nat → Nat} {s : State} (h : Inv fn s) (e : Exc) :
+    (terminateBroken s e).mgr = .exited ∧ Resolved (terminateBroken s e) :=
+  ⟨rfl, resolved_of_no_pending (inv_terminateBroken h e) rfl⟩
+
+theorem managerSteps_not_running (k : Nat) (s : State) (h : s.mgr ≠ .running) : managerSteps k s = s := by
+  induction k with
+  | zero => rfl
+  | succ k ih =>
+    have : (managerStep s).1 = s := by unfold managerStep; simp [h]
+    simp [managerSteps, this, ih]
+
+/-- How `finishIteration` ends from a running, consistent state. -/
+theorem finishIteration_cases {fn : Nat → Nat} {s : State} (h : Inv fn s) (hr : s.mgr = .running) :
+    ((finishIteration s).1.mgr = .exited ∧ Resolved (finishIteration s).1) ∨
+    ((finishIteration s).2 = .progressed ∧ (finishIteration s).1.mgr = .running ∧
+      (finishIteration s).1.processes = s.processes ∧ (finishIteration s).1.result_pipe = s.result_pipe ∧
+      (finishIteration s).1.partialMsg = s.partialMsg ∧ (finishIteration s).1.wakeups = s.wakeups) := by
+  have hI := inv_finishIteration h
+  revert hI
+  unfold finishIteration
+  have hnc : ¬ s.mgr = .crashed := by rw [hr]; intro e; cases e
+  simp only [hnc, if_false]
+  split
+  · unfold flagExecutorShuttingDown
+    simp only []
+    split
+    · intro hI
+      left
+      exact ⟨rfl, resolved_of_no_pending hI rfl⟩
+    · split
+      · rename_i hp
+        intro hI
+        left
+        refine ⟨rfl, resolved_of_no_pending hI ?_⟩
+        simpa [joinExecutorInternals] using hp
+      · intro _
+        right
+        exact ⟨rfl, hr, rfl, rfl, rfl, rfl⟩
+  · intro _
+    right
+    exact ⟨rfl, hr, rfl, rfl, rfl, rfl⟩
+
+
+theorem processResultItem_same (s : State) (m : Msg) (hm : ∀ q, m ≠ .pid q) :
+    (processResultItem s m).processes = s.processes ∧
+    (processResultItem s m).result_pipe = s.result_pipe ∧
+    (processResultItem s m).partialMsg = s.partialMsg ∧
+    (processResultItem s m).wakeups = s.wakeups ∧
+    ((processResultItem s m).mgr = s.mgr ∨ (processResultItem s m).mgr = .crashed) := by
+  cases m with
+  | pid q => exact absurd rfl (hm q)
+  | result wid v =>
+    simp only [processResultItem]
+    split
+    · split <;> simp [complete]
+    · simp
+  | taskExc wid =>
+    simp only [processResultItem]
+    split
+    · split <;> simp [complete]
+    · simp
+  | remoteTb => simp [processResultItem]
+  | unpicklable => simp [processResultItem]
+
+/-- One iteration of the manager with a dead process in its wait set, no partial message in the pipe and no
+clean-exit announcement in flight: it ends the thread with every future resolved, or it consumed one complete
+message, or (empty pipe) it consumed the pending wake-ups — and the situation persists. -/
+theorem managerStep_cases {fn : Nat → Nat} {s : State} {p : Nat} (h : Inv fn s) (hr : s.mgr = .running)
+    (hd : DeadIn s p) (hnt : NoTornMessage s) (hnp : ∀ q, Msg.pid q ∉ s.result_pipe) :
+    ((managerStep s).1.mgr = .exited ∧ Resolved (managerStep s).1) ∨
+    ((managerStep s).2 = .progressed ∧ Inv fn (managerStep s).1 ∧ (managerStep s).1.mgr = .running ∧
+      DeadIn (managerStep s).1 p ∧ (managerStep s).1.partialMsg = s.partialMsg ∧
+      ((∃ m, s.result_pipe = m :: (managerStep s).1.result_pipe) ∨
+       (s.result_pipe = [] ∧ (managerStep s).1.result_pipe = [] ∧ s.wakeups > 0 ∧
+        (managerStep s).1.wakeups = 0))) ∨
+    (∃ w, (managerStep s).2 = .blockedInRecv w ∧ writerAlive s w = true ∧ s.result_pipe = [] ∧
+      s.partialMsg = some w) := by
+  have hI := inv_managerStep (fn := fn) h
+  revert hI
+  obtain ⟨h1, hr1⟩ := inv_addCallItems h hr
+  obtain ⟨e1, e2, e3, e4, _, _, _, _⟩ := addCallItems_same s
+  unfold managerStep
+  have hnr : ¬ s.mgr ≠ .running := by simp [hr]
+  have hnc : ¬ (addCallItems s).mgr = .crashed := by rw [hr1]; intro e; cases e
+  simp only [hnr, hnc, if_false]
+  split
+  · rename_i _ m rest hpipe
+    have hmem : ∀ x ∈ rest, x ∈ (addCallItems s).result_pipe := by
+      intro x hx; rw [hpipe]; exact List.mem_cons_of_mem _ hx
+    have h2 := inv_received h1 rest hmem
+    have hmok : MsgOk fn (received (addCallItems s) rest) m :=
+      (Frame.refl' rfl rfl rfl : Frame (addCallItems s) (received (addCallItems s) rest)).msg
+        (h1.pipe_ok m (by rw [hpipe]; simp))
+    have hs : s.result_pipe = m :: rest := by rw [← e2]; exact hpipe
+    split
+    · intro _; left; exact terminateBroken_resolved h2 _
+    · intro _; left; exact terminateBroken_resolved h2 _
+    · intro hI
+      have hmp : ∀ q, m ≠ .pid q := by
+        intro q e; apply hnp q; rw [hs, e]; simp
+      have h3 := inv_processResultItem h2 m hmok
+      obtain ⟨p1, p2, p3, p4, p5⟩ := processResultItem_same (received (addCallItems s) rest) m hmp
+      have hr3 : (processResultItem (received (addCallItems s) rest) m).mgr = .running := by
+        rcases p5 with p5 | p5
+        · rw [p5]; exact hr1
+        · exact absurd p5 h3.not_crashed
+      rcases finishIteration_cases h3 hr3 with hc | ⟨c1, c2, c3, c4, c5, c6⟩
+      · left; exact hc
+      · right; left
+        refine ⟨c1, hI, c2, ?_, ?_, Or.inl ⟨m, ?_⟩⟩
+        · rw [DeadIn, c3, p1]; simp only [received]; rw [e1]; exact hd
+        · rw [c5, p3]; simp only [received]; exact e3
+        · rw [c4, p2]; simp only [received]; exact hs
+  · rename_i _ w hpipe hpart
+    have hpw : s.partialMsg = some w := by rw [← e3]; exact hpart
+    have hal : writerAlive s w = true := hnt w hpw
+    have hal' : writerAlive (addCallItems s) w = true := by
+      unfold writerAlive at hal ⊢; rw [e1]; exact hal
+    simp only [hal', if_true]
+    intro _
+    right; right
+    exact ⟨w, rfl, hal, by rw [← e2]; exact hpipe, hpw⟩
+  · rename_i _ hpipe _
+    have hs : s.result_pipe = [] := by rw [← e2]; exact hpipe
+    split
+    · rename_i hw
+      intro hI
+      have h2 := inv_received h1 [] (by simp)
+      rcases finishIteration_cases h2 hr1 with hc | ⟨c1, c2, c3, c4, c5, c6⟩
+      · left; exact hc
+      · right; left
+        refine ⟨c1, hI, c2, ?_, ?_, Or.inr ⟨hs, ?_, ?_, ?_⟩⟩
+        · rw [DeadIn, c3]; simp only [received]; rw [e1]; exact hd
+        · rw [c5]; simp only [received]; exact e3
+        · rw [c4]; rfl
+        · rw [← e4]; exact hw
+        · rw [c6]; rfl
+    · split
+      · rename_i hempty
+        exfalso
+        have : p ∈ deadPids (addCallItems s).processes := by
+          rw [e1]; exact mem_deadPids.mpr hd
+        simp at hempty
+        rw [hempty] at this; cases this
+      · intro _; left; exact terminateBroken_resolved h1 _
+
+
+theorem managerSteps_succ (k : Nat) (s : State) : managerSteps (k + 1) s = managerSteps k (managerStep s).1 := rfl
+
+/-- Empty pipe, no wake-up pending: the very next iteration sees only the sentinel and terminates. -/
+theorem broken_now {fn : Nat → Nat} {s : State} {p : Nat} (h : Inv fn s) (hr : s.mgr = .running)
+    (hd : DeadIn s p) (hnt : s.partialMsg = none) (hpipe : s.result_pipe = []) (hw : s.wakeups = 0) :
+    (managerStep s).1.mgr = .exited ∧ Resolved (managerStep s).1 := by
+  rcases managerStep_cases h hr hd (noTorn_of_none hnt) (by rw [hpipe]; simp) with
+    hc | ⟨_, _, _, _, _, hx⟩ | ⟨w, _, _, _, hw'⟩
+  · exact hc
+  · rcases hx with ⟨m, hm⟩ | ⟨_, _, hw', _⟩
+    · rw [hpipe] at hm; cases hm
+    · omega
+  · rw [hnt] at hw'; cases hw'
+
+theorem broken_resolves_all_aux {fn : Nat → Nat} {p : Nat} :
+    ∀ (n : Nat) (s : State), s.result_pipe.length = n → Inv fn s → s.mgr = .running → DeadIn s p →
+      s.partialMsg = none → (∀ q, Msg.pid q ∉ s.result_pipe) →
+      (managerSteps (n + 2) s).mgr = .exited ∧ Resolved (managerSteps (n + 2) s) := by
+  intro n
+  induction n with
+  | zero =>
+    intro s hlen h hr hd hnt hnp
+    have hpipe : s.result_pipe = [] := List.eq_nil_of_length_eq_zero hlen
+    rw [managerSteps_succ, managerSteps_succ]
+    simp only [managerSteps]
+    rcases managerStep_cases h hr hd (noTorn_of_none hnt) hnp with
+      ⟨hx, hres⟩ | ⟨_, h', hr', hd', hnt', hx⟩ | ⟨w, _, _, _, hw'⟩
+    · have : (managerStep (managerStep s).1).1 = (managerStep s).1 := by
+        have := managerSteps_not_running 1 (managerStep s).1 (by rw [hx]; intro e; cases e)
+        simpa [managerSteps] using this
+      rw [this]; exact ⟨hx, hres⟩
+    · rcases hx with ⟨m, hm⟩ | ⟨_, hp', _, hw'⟩
+      · rw [hpipe] at hm; cases hm
+      · exact broken_now h' hr' hd' (hnt'.trans hnt) hp' hw'
+    · rw [hnt] at hw'; cases hw'
+  | succ n ih =>
+    intro s hlen h hr hd hnt hnp
+    rw [managerSteps_succ]
+    rcases managerStep_cases h hr hd (noTorn_of_none hnt) hnp with
+      ⟨hx, hres⟩ | ⟨_, h', hr', hd', hnt', hx⟩ | ⟨w, _, _, _, hw'⟩
+    · rw [managerSteps_not_running _ _ (by rw [hx]; intro e; cases e)]
+      exact ⟨hx, hres⟩
+    · rcases hx with ⟨m, hm⟩ | ⟨hp, _, _, _⟩
+      · apply ih _ _ h' hr' hd' (hnt'.trans hnt)
+        · intro q hq; apply hnp q; rw [hm]; exact List.mem_cons_of_mem _ hq
+        · rw [hm] at hlen; simpa using hlen
+      · rw [hp] at hlen; cases hlen
+    · rw [hnt] at hw'; cases hw'
+
+
+
+
+/-! ### F15: a torn message -/
+
+/-- The hazard: the manager is running, the pipe holds only the first bytes of a message, and their writer is
+a dead process still in `processes`. -/
+def Torn (s : State) (w : Nat) : Prop :=
+  s.mgr = .running ∧ s.result_pipe = [] ∧ s.partialMsg = some w ∧
+    ∃ wk, getWorker s.processes w = some wk ∧ wk.alive = false
+
+theorem torn_writer_dead {s : State} {w : Nat} (h : Torn s w) : writerAlive s w = false := by
+  obtain ⟨_, _, _, wk, hg, ha⟩ := h
+  simp [writerAlive, hg, ha]
+
+theorem torn_stuck {fn : Nat → Nat} {s : State} {w : Nat} (hI : Inv fn s) (h : Torn s w) :
+    (managerStep s).2 = .stuckInRecv w ∧ (managerStep s).1 = addCallItems s := by
+  obtain ⟨h1, hr1⟩ := inv_addCallItems hI h.1
+  obtain ⟨e1, e2, e3, _⟩ := addCallItems_same s
+  have hwd := torn_writer_dead h
+  unfold managerStep
+  have hnr : ¬ s.mgr ≠ .running := by simp [h.1]
+  have hnc : ¬ (addCallItems s).mgr = .crashed := by rw [hr1]; intro e; cases e
+  simp only [hnr, hnc, if_false]
+  split
+  · rename_i hp; rw [e2, h.2.1] at hp; cases hp
+  · rename_i w' _ hpart
+    rw [e3, h.2.2.1] at hpart
+    cases hpart
+    have : writerAlive (addCallItems s) w = false := by
+      unfold writerAlive at hwd ⊢; rw [e1]; exact hwd
+    simp [this]
+  · rename_i hpart; rw [e3, h.2.2.1] at hpart; cases hpart
+
+theorem getWorker_updWorker (ps : List Worker) (pid w : Nat) (f : Worker → Worker)
+    (hf : ∀ x, (f x).pid = x.pid) :
+    getWorker (updWorker ps pid f) w = (getWorker ps w).map (fun x => if x.pid == pid then f x else x) := by
+  unfold getWorker updWorker
+  induction ps with
+  | nil => rfl
+  | cons a as ih =>
+    simp only [List.map_cons, List.find?_cons]
+    have : (if a.pid == pid then f a else a).pid = a.pid := by split <;> simp [hf]
+    rw [this]
+    split
+    · simp
+    · exact ih
+
+theorem getWorker_append_of_some (ps l : List Worker) (w : Nat) (wk : Worker)
+    (h : getWorker ps w = some wk) : getWorker (ps ++ l) w = some wk := by
+  unfold getWorker at h ⊢
+  rw [List.find?_append, h]; rfl
+
+
+theorem torn_updWorker {s : State} {w : Nat} (pid : Nat) (f : Worker → Worker)
+    (hf : ∀ x, (f x).pid = x.pid ∧ (x.alive = false → (f x).alive = false))
+    (h : ∃ wk, getWorker s.processes w = some wk ∧ wk.alive = false) :
+    ∃ wk, getWorker (updWorker s.processes pid f) w = some wk ∧ wk.alive = false := by
+  obtain ⟨wk, hg, ha⟩ := h
+  rw [getWorker_updWorker _ _ _ _ (fun x => (hf x).1), hg]
+  refine ⟨_, rfl, ?_⟩
+  dsimp only
+  split
+  · exact (hf wk).2 ha
+  · exact ha
+
+/-- Once the pipe is torn nothing the workers, the OS or the client can do mends it. -/
+theorem torn_step {fn : Nat → Nat} {s : State} {w : Nat} (hI : Inv fn s) (h : Torn s w) (e : Event) :
+    Torn (step fn s e) w := by
+  obtain ⟨hr, hpipe, hpart, hwk⟩ := h
+  have hpn : s.partialMsg.isNone = false := by rw [hpart]; rfl
+  cases e with
+  | mgr =>
+    simp only [step]
+    rw [(torn_stuck hI ⟨hr, hpipe, hpart, hwk⟩).2]
+    obtain ⟨_, hr1⟩ := inv_addCallItems hI hr
+    obtain ⟨e1, e2, e3, _⟩ := addCallItems_same s
+    exact ⟨hr1, by rw [e2]; exact hpipe, by rw [e3]; exact hpart, by rw [e1]; exact hwk⟩
+  | submit arg =>
+    simp only [step, submit]
+    split
+    · exact ⟨hr, hpipe, hpart, hwk⟩
+    · split
+      · exact ⟨hr, hpipe, hpart, hwk⟩
+      · simp only [ensureRunning, startManager]
+        split
+        · refine ⟨by simp [adjustProcessCount, spawn_eq, register, hr], ?_, ?_, ?_⟩
+          · simpa [adjustProcessCount, spawn_eq, register] using hpipe
+          · simpa [adjustProcessCount, spawn_eq, register] using hpart
+          · obtain ⟨wk, hg, ha⟩ := hwk
+            refine ⟨wk, ?_, ha⟩
+            simp only [adjustProcessCount, spawn_eq, register]
+            exact getWorker_append_of_some _ _ _ _ hg
+        · exact ⟨by simp [register, hr], hpipe, hpart, hwk⟩
+  | shutdown kw => exact ⟨hr, hpipe, hpart, hwk⟩
+  | take pid =>
+    simp only [step]
+    split
+    · split
+      · exact ⟨hr, hpipe, hpart, torn_updWorker pid _ (fun x => ⟨rfl, fun hx => hx⟩) hwk⟩
+      · exact ⟨hr, hpipe, hpart, hwk⟩
+    · exact ⟨hr, hpipe, hpart, hwk⟩
+  | unpickleFail pid =>
+    simp only [step]
+    split
+    · split
+      · rename_i hc; simp [hpn] at hc
+      · exact ⟨hr, hpipe, hpart, hwk⟩
+    · exact ⟨hr, hpipe, hpart, hwk⟩
+  | sendResult pid =>
+    simp only [step]
+    split
+    · split
+      · split
+        · rename_i hc; simp [hpn] at hc
+        · exact ⟨hr, hpipe, hpart, hwk⟩
+      · exact ⟨hr, hpipe, hpart, hwk⟩
+    · exact ⟨hr, hpipe, hpart, hwk⟩
+  | sendTaskExc pid =>
+    simp only [step]
+    split
+    · split
+      · split
+        · rename_i hc; simp [hpn] at hc
+        · exact ⟨hr, hpipe, hpart, hwk⟩
+      · exact ⟨hr, hpipe, hpart, hwk⟩
+    · exact ⟨hr, hpipe, hpart, hwk⟩
+  | beginSend pid =>
+    simp only [step]
+    split
+    · split
+      · rename_i hc; simp [hpn] at hc
+      · exact ⟨hr, hpipe, hpart, hwk⟩
+    · exact ⟨hr, hpipe, hpart, hwk⟩
+  | endSend pid =>
+    simp only [step]
+    split
+    · rename_i w0 hg0
+      split
+      · split
+        · rename_i hc
+          exfalso
+          simp only [Bool.and_eq_true, beq_iff_eq] at hc
+          obtain ⟨⟨ha, _⟩, hp⟩ := hc
+          rw [hpart] at hp
+          cases hp
+          obtain ⟨wk, hg, hd⟩ := hwk
+          rw [hg] at hg0; cases hg0
+          rw [hd] at ha; cases ha
+        · exact ⟨hr, hpipe, hpart, hwk⟩
+      · exact ⟨hr, hpipe, hpart, hwk⟩
+    · exact ⟨hr, hpipe, hpart, hwk⟩
+  | announceExit pid =>
+    simp only [step]
+    split
+    · split
+      · rename_i hc; simp [hpn] at hc
+      · exact ⟨hr, hpipe, hpart, hwk⟩
+    · exact ⟨hr, hpipe, hpart, hwk⟩
+  | kill pid =>
+    simp only [step]
+    exact ⟨hr, hpipe, hpart, torn_updWorker pid _ (fun x => ⟨rfl, fun _ => rfl⟩) hwk⟩
+
+/-- Only the manager's iteration and `submit` touch the futures table. -/
+theorem step_futures_same (fn : Nat → Nat) (s : State) (e : Event) (h1 : e ≠ .mgr) (h2 : ∀ a, e ≠ .submit a) :
+    (step fn s e).futures = s.futures := by
+  cases e with
+  | mgr => exact absurd rfl h1
+  | submit a => exact absurd rfl (h2 a)
+  | shutdown kw => rfl
+  | take pid => simp only [step]; (repeat' split) <;> rfl
+  | unpickleFail pid => simp only [step]; (repeat' split) <;> rfl
+  | sendResult pid => simp only [step]; (repeat' split) <;> rfl
+  | sendTaskExc pid => simp only [step]; (repeat' split) <;> rfl
+  | beginSend pid => simp only [step]; (repeat' split) <;> rfl
+  | endSend pid => simp only [step]; (repeat' split) <;> rfl
+  | announceExit pid => simp only [step]; (repeat' split) <;> rfl
+  | kill pid => rfl
+
+/-- While the pipe is torn no event resolves a future. -/
+theorem torn_step_unresolved {fn : Nat → Nat} {s : State} {w : Nat} (hI : Inv fn s) (h : Torn s w) (e : Event)
+    (i : Nat) (r : FutRec) (hi : s.futures[i]? = some r) (hu : r.st.unresolved = true) :
+    ∃ r' : FutRec, (step fn s e).futures[i]? = some r' ∧ r'.st.unresolved = true := by
+  have hpn : s.partialMsg.isNone = false := by rw [h.2.2.1]; rfl
+  have same : ∀ s' : State, s'.futures = s.futures →
+      ∃ r' : FutRec, s'.futures[i]? = some r' ∧ r'.st.unresolved = true :=
+    fun s' e => ⟨r, by rw [e]; exact hi, hu⟩
+  cases e with
+  | mgr =>
+    simp only [step]
+    rw [(torn_stuck hI h).2]
+    obtain ⟨r', h1, _, h3⟩ := addCallItemsLoop_futures s.work_ids s i r hi
+    refine ⟨r', h1, ?_⟩
+    rcases h3 with h3 | h3
+    · rw [h3]; exact hu
+    · rw [h3]; rfl
+  | submit arg =>
+    simp only [step, submit]
+    split
+    · exact same _ rfl
+    · split
+      · exact same _ rfl
+      · have hlt : i < s.futures.length := (List.getElem?_eq_some_iff.mp hi).1
+        refine ⟨r, ?_, hu⟩
+        simp only [ensureRunning, startManager]
+        split
+        · simp [adjustProcessCount, spawn_eq, register, List.getElem?_append_left hlt, hi]
+        · simp [register, List.getElem?_append_left hlt, hi]
+  | shutdown kw => exact same _ rfl
+  | take pid => exact same _ (step_futures_same fn s _ (by simp) (by simp))
+  | unpickleFail pid => exact same _ (step_futures_same fn s _ (by simp) (by simp))
+  | sendResult pid => exact same _ (step_futures_same fn s _ (by simp) (by simp))
+  | sendTaskExc pid => exact same _ (step_futures_same fn s _ (by simp) (by simp))
+  | beginSend pid => exact same _ (step_futures_same fn s _ (by simp) (by simp))
+  | endSend pid => exact same _ (step_futures_same fn s _ (by simp) (by simp))
+  | announceExit pid => exact same _ (step_futures_same fn s _ (by simp) (by simp))
+  | kill pid => exact same _ rfl
+
+/-- The hazard is permanent: whatever happens next, the manager stays stuck in `recv` and every future that was
+unresolved stays unresolved. -/
+theorem torn_forever {fn : Nat → Nat} {w : Nat} (evs : List Event) :
+    ∀ {s : State}, Inv fn s → Torn s w →
+      Torn (run fn s evs) w ∧ (managerStep (run fn s evs)).2 = .stuckInRecv w ∧
+      ∀ (i : Nat) (r : FutRec), s.futures[i]? = some r → r.st.unresolved = true →
+        ∃ r' : FutRec, (run fn s evs).futures[i]? = some r' ∧ r'.st.unresolved = true := by
+  induction evs with
+  | nil =>
+    intro s hI h
+    exact ⟨h, (torn_stuck hI h).1, fun i r hi hu => ⟨r, hi, hu⟩⟩
+  | cons e es ih =>
+    intro s hI h
+    obtain ⟨a, b, c⟩ := ih (inv_step hI e) (torn_step hI h e)
+    refine ⟨a, b, ?_⟩
+    intro i r hi hu
+    obtain ⟨r1, h1, hu1⟩ := torn_step_unresolved hI h e i r hi hu
+    exact c i r1 h1 hu1
+
+
+
+
+/-! ### Flags are for ever; `get_reusable_executor` -/
+
+theorem adjustProcessCount_flags (s : State) : (adjustProcessCount s).flags = s.flags := by
+  simp [adjustProcessCount, spawn_eq]
+
+theorem processResultItem_flags (s : State) (m : Msg) : (processResultItem s m).flags = s.flags := by
+  cases m with
+  | pid p => simp only [processResultItem, reapWorker]; split <;> simp [adjustProcessCount_flags]
+  | result wid v => simp only [processResultItem]; (repeat' split) <;> simp [complete]
+  | taskExc wid => simp only [processResultItem]; (repeat' split) <;> simp [complete]
+  | remoteTb => rfl
+  | unpicklable => rfl
+
+theorem finishIteration_broken (s : State) : (finishIteration s).1.flags.broken = s.flags.broken := by
+  unfold finishIteration
+  split
+  · rfl
+  · split
+    · unfold flagExecutorShuttingDown
+      simp only []
+      split
+      · rfl
+      · split <;> rfl
+    · rfl
+
+theorem managerStep_broken_sticky (s : State) (h : s.flags.broken.isSome = true) :
+    (managerStep s).1.flags.broken.isSome = true := by
+  have e5 := (addCallItems_same s).2.2.2.2.1
+  unfold managerStep
+  split
+  · exact h
+  · simp only []
+    split
+    · rw [e5]; exact h
+    · split
+      · split
+        · rfl
+        · rfl
+        · rw [finishIteration_broken, processResultItem_flags]; simp only [received]; rw [e5]; exact h
+      · split <;> (rw [e5]; exact h)
+      · split
+        · rw [finishIteration_broken]; simp only [received]; rw [e5]; exact h
+        · split
+          · rw [e5]; exact h
+          · rfl
+
+
+/-- Only the manager's iteration, `submit` and `shutdown` touch the flags; none of them clears `broken`. -/
+theorem step_broken_sticky (fn : Nat → Nat) (s : State) (e : Event) (h : s.flags.broken.isSome = true) :
+    (step fn s e).flags.broken.isSome = true := by
+  cases e with
+  | mgr => exact managerStep_broken_sticky s h
+  | submit a =>
+    simp only [step, submit]
+    cases hb : s.flags.broken with
+    | none => rw [hb] at h; cases h
+    | some b => simp [hb]
+  | shutdown kw => exact h
+  | take pid => simp only [step]; (repeat' split) <;> exact h
+  | unpickleFail pid => simp only [step]; (repeat' split) <;> exact h
+  | sendResult pid => simp only [step]; (repeat' split) <;> exact h
+  | sendTaskExc pid => simp only [step]; (repeat' split) <;> exact h
+  | beginSend pid => simp only [step]; (repeat' split) <;> exact h
+  | endSend pid => simp only [step]; (repeat' split) <;> exact h
+  | announceExit pid => simp only [step]; (repeat' split) <;> exact h
+  | kill pid => exact h
+
+theorem resize_flags (s : State) (mw : Nat) : (resize s mw).flags = s.flags := by
+  unfold resize
+  split
+  · rfl
+  · split
+    · rfl
+    · simp [adjustProcessCount_flags]
+
+/-- The executor `get_reusable_executor` hands out is neither flagged broken nor shut down. -/
+theorem getReusableExecutor_healthy (p : Pool) (mw qs : Nat) (reuse kw : Bool) :
+    ∃ e, (getReusableExecutor p mw qs reuse kw).1.execs[(getReusableExecutor p mw qs reuse kw).2.1]? = some e ∧
+      e.flags.broken = none ∧ e.flags.shutdown = false := by
+  unfold getReusableExecutor
+  split
+  · exact ⟨State.init mw qs (firstPid p.execs.length), by simp [createExecutor], rfl, rfl⟩
+  · rename_i i _
+    split
+    · exact ⟨State.init mw qs (firstPid p.execs.length), by simp [createExecutor], rfl, rfl⟩
+    · rename_i e he
+      split
+      · refine ⟨State.init mw qs (firstPid p.execs.length), ?_, rfl, rfl⟩
+        simp [createExecutor]
+      · rename_i hc
+        simp only [Bool.or_eq_true, Bool.not_eq_true', not_or, Bool.not_eq_true] at hc
+        obtain ⟨⟨h1, h2⟩, _⟩ := hc
+        have hlt : i < p.execs.length := (List.getElem?_eq_some_iff.mp he).1
+        refine ⟨resize e mw, by simp [hlt], ?_, ?_⟩
+        · rw [resize_flags]; cases hb : e.flags.broken with
+          | none => rfl
+          | some b => rw [hb] at h1; cases h1
+        · rw [resize_flags]; exact h2
+
+/-- `get_reusable_executor` leaves the broken flag of every existing executor as it is (or sets nothing): an
+executor that was broken stays broken, at the same position. -/
+theorem getReusableExecutor_keeps_broken (p : Pool) (mw qs : Nat) (reuse kw : Bool) (j : Nat) (e : State)
+    (hj : p.execs[j]? = some e) (hb : e.flags.broken.isSome = true) :
+    ∃ e', (getReusableExecutor p mw qs reuse kw).1.execs[j]? = some e' ∧ e'.flags.broken.isSome = true := by
+  have hlt : j < p.execs.length := (List.getElem?_eq_some_iff.mp hj).1
+  unfold getReusableExecutor
+  split
+  · exact ⟨e, by simp [createExecutor, List.getElem?_append_left hlt, hj], hb⟩
+  · rename_i i _
+    split
+    · exact ⟨e, by simp [createExecutor, List.getElem?_append_left hlt, hj], hb⟩
+    · rename_i x hx
+      split
+      · by_cases hij : i = j
+        · subst hij
+          rw [hj] at hx; cases hx
+          refine ⟨shutdown e kw, ?_, hb⟩
+          simp [createExecutor, List.getElem?_append_left, hlt]
+        · refine ⟨e, ?_, hb⟩
+          have := (List.getElem?_eq_some_iff.mp hj).2
+          simp [createExecutor, List.getElem?_append_left, hlt, hij, this]
+      · by_cases hij : i = j
+        · subst hij
+          rw [hj] at hx; cases hx
+          refine ⟨resize e mw, by simp [hlt], ?_⟩
+          rw [resize_flags]; exact hb
+        · exact ⟨e, by simp [hij, hj], hb⟩
+
+theorem poolStep_keeps_broken (fn : Nat → Nat) (pr : Pool × List Nat) (op : PoolOp) (j : Nat) (e : State)
+    (hj : pr.1.execs[j]? = some e) (hb : e.flags.broken.isSome = true) :
+    ∃ e', (poolStep fn pr op).1.execs[j]? = some e' ∧ e'.flags.broken.isSome = true := by
+  cases op with
+  | exec i ev =>
+    simp only [poolStep]
+    split
+    · rename_i x hx
+      by_cases hij : i = j
+      · subst hij
+        rw [hj] at hx; cases hx
+        have hlt : i < pr.1.execs.length := (List.getElem?_eq_some_iff.mp hj).1
+        exact ⟨step fn e ev, by simp [hlt], step_broken_sticky fn e ev hb⟩
+      · exact ⟨e, by simp [hij, hj], hb⟩
+    · exact ⟨e, hj, hb⟩
+  | get mw qs reuse kw =>
+    simp only [poolStep]
+    exact getReusableExecutor_keeps_broken pr.1 mw qs reuse kw j e hj hb
+
+/-- For every history: an executor flagged broken is never handed out again. -/
+theorem broken_never_returned (fn : Nat → Nat) (ops : List PoolOp) :
+    ∀ (pr : Pool × List Nat) (j : Nat) (e : State), pr.1.execs[j]? = some e → e.flags.broken.isSome = true →
+      j ∉ pr.2 → j ∉ (poolRun fn pr ops).2 := by
+  induction ops with
+  | nil => intro pr j e _ _ h; exact h
+  | cons op ops ih =>
+    intro pr j e hj hb hn
+    obtain ⟨e', hj', hb'⟩ := poolStep_keeps_broken fn pr op j e hj hb
+    simp only [poolRun, List.foldl_cons]
+    apply ih (poolStep fn pr op) j e' hj' hb'
+    cases op with
+    | exec i ev => simp only [poolStep]; split <;> exact hn
+    | get mw qs reuse kw =>
+      simp only [poolStep, List.mem_cons, not_or]
+      refine ⟨?_, hn⟩
+      intro hji
+      obtain ⟨x, hx, hxb, _⟩ := getReusableExecutor_healthy pr.1 mw qs reuse kw
+      have := getReusableExecutor_keeps_broken pr.1 mw qs reuse kw j e hj hb
+      obtain ⟨y, hy, hyb⟩ := this
+      rw [← hji] at hx
+      rw [hx] at hy; cases hy
+      rw [hxb] at hyb; cases hyb
+
+
+/-! ### What `terminate_broken` touches; idle deaths -/
+
+theorem terminateBroken_untouched (s : State) (e : Exc) (wid : Nat) (h : wid ∉ s.pending_work_items) :
+    (terminateBroken s e).futures[wid]? = s.futures[wid]? := by
+  simp [terminateBroken, joinExecutorInternals, killWorkers, failPending, flagAsBroken, getElem?_failAll, h]
+
+theorem terminateBroken_flags (s : State) (e : Exc) :
+    (terminateBroken s e).flags.broken = some e ∧ (terminateBroken s e).flags.shutdown = true := ⟨rfl, rfl⟩
+
+theorem submit_on_broken (s : State) (arg : Nat) (b : Exc) (h : s.flags.broken = some b) :
+    submit s arg = (s, .error b) := by
+  simp [submit, h]
+
+/-- The executor is idle: manager asleep in `wait`, nothing pending, nothing in the pipes. -/
+def Quiescent (s : State) : Prop :=
+  s.mgr = .running ∧ s.pending_work_items = [] ∧ s.work_ids = [] ∧ s.result_pipe = [] ∧
+    s.partialMsg = none ∧ s.wakeups = 0
+
+theorem idle_death_step (s : State) (p : Nat) (hq : Quiescent s) (hd : DeadIn s p) :
+    managerStep s = (terminateBroken s .terminatedWorker, .exited) ∧
+    (terminateBroken s .terminatedWorker).futures = s.futures := by
+  obtain ⟨hr, hp, hw, hpipe, hpart, hwk⟩ := hq
+  have ha : addCallItems s = s := by simp [addCallItems, hw, addCallItemsLoop]
+  constructor
+  · unfold managerStep
+    have hnr : ¬ s.mgr ≠ .running := by simp [hr]
+    have hnc : ¬ s.mgr = .crashed := by rw [hr]; intro e; cases e
+    simp only [hnr, ha, hnc, if_false, hpipe, hpart, hwk]
+    have : (deadPids s.processes).isEmpty = false := by
+      have := mem_deadPids.mpr hd
+      cases hx : deadPids s.processes with
+      | nil => rw [hx] at this; cases this
+      | cons a l => rfl
+    simp [this]
+  · simp [terminateBroken, joinExecutorInternals, killWorkers, failPending, flagAsBroken, hp, failAll]
+
+
 end JoblibModel.LokyMgr
